@@ -791,6 +791,8 @@ func (rw *rewriter) selector(x *ast.SelectorExpr, m mode) ast.Expr {
 					return rw.vs("NumCPU")
 				case "SetFinalizer":
 					return rw.vs("NoFinalizer")
+				case "Gosched":
+					return rw.vs("Yield")
 				}
 			}
 		}
